@@ -1242,8 +1242,15 @@ def impl_c06_graph(case, scratch):
             if r == _G then host = '_G' end
             return ids[fn] or 0, ids[r] or -1, host
         end""")
+        # every name also in the spellings a loader might normalise (blanks, case, namespace prefix, path forms)
+        spellings = []
+        for nm in names:
+            for v in (nm, " " + nm, nm + " ", "\t" + nm, nm + "\n", " " + nm + " ", nm.upper(), nm.capitalize(), "Module:" + nm,
+                      "module:" + nm, nm + ".lua", "./" + nm, nm + "/", nm.replace("_", " "), nm + "\0", "\0" + nm):
+                if v not in spellings:
+                    spellings.append(v)
         for fname in ("require", "_cached_mod"):
-            for nm in names:
+            for nm in spellings:
                 res = caller(env, ids, fname, nm, None)
                 if res is not None and res[0] is not None:
                     call_edges.append([int(res[0]), fname + "(" + nm + ")", int(res[1]), str(res[2])])
